@@ -313,8 +313,8 @@ C04_Step(pre, ev, post) ==
                           it.k = "FETCH" /\ it.n = i /\ it.hasfl
                           /\ Visible(it.fl) = Visible(b.msgs[i].fl)
                 THEN {"C04.IssuerTold"} ELSE {})
-               \cup (IF ev.silent /\ \E k \in DOMAIN ev.out[s] : ev.out[s][k].k = "FETCH"
-                     THEN {"C04.SilentLeak"} ELSE {})
+               \cup (IF ev.silent /\ \E k \in DOMAIN ev.out[s] : ev.out[s][k].k = "FETCH" /\ ~ev.out[s][k].st
+                     THEN {"C04.SilentLeak"} ELSE {})      \* (st: came out of the notification queue)
                \cup
                (* ... and every other session on the mailbox has the change  *)
                (* delivered or queued                                        *)
@@ -547,7 +547,7 @@ C12_MbSame(a, b) ==
     LET added == DropN(b.msgs, Len(a.msgs)) IN
     /\ a.vv = b.vv /\ a.sub = b.sub /\ a.nosel = b.nosel
     /\ IsPrefixOf(a.msgs, b.msgs)
-    /\ \A k \in DOMAIN added : <<added[k].key, added[k].id>> \in Unnoticed(a)
+    /\ \A k \in DOMAIN added : added[k].id \in {f[2] : f \in Unnoticed(a)}    \* (a pack may renumber keys)
     /\ b.next = a.next + Len(added)
 
 C12_Step(pre, ev, post) ==
